@@ -125,7 +125,16 @@ where
         loop {
             // accept the next incoming connection
             let (stream, addr) = select! {
-                accepted = listener.accept() => accepted?,
+                accepted = listener.accept() => match accepted {
+                    Ok(accepted) => accepted,
+                    // accepting may fail for this one connection (aborted by the peer) or for a
+                    // while (no file descriptors left); neither is a reason to stop serving
+                    Err(err) => {
+                        warn!(cause = err.to_string(), "failed to accept connection");
+                        tokio::time::sleep(Duration::from_millis(50)).await;
+                        continue;
+                    }
+                },
                 _ = stop.cancelled() => {
                     info!("stopping listener");
                     break;
